@@ -151,6 +151,7 @@ pub fn run(ctx: &mut Ctx) {
     for s in REGRESSION { judge(ctx, s, "regression"); }
     streams(ctx);
     streams2(ctx);
+    streams3(ctx);
     // repo test data as read-only seeds
     let repo = std::env::var("VERIF_REPO").unwrap_or_else(|_| "/repo".into());
     for dir in ["diagnostics", "ok"] {
@@ -601,6 +602,107 @@ fn streams2(ctx: &mut Ctx) {
         let w = *ctx.rng.pick(&pool); let mut w2 = *ctx.rng.pick(&pool);
         if w2 == w { w2 = if w == "A" { "Query" } else { "A" }; }
         kinds_case(ctx, &x, &y, &y2, &z, &z2, w, w2);
+    }
+}
+
+// ---- directive applications at every type-system location
+
+#[derive(Clone, Debug)]
+struct DDef { repeatable: bool, locs: Vec<usize>, args: Vec<(usize, bool, bool)> } // (name, required, optional-by-default)
+#[derive(Clone, Debug)]
+struct DApp { name: usize, args: Vec<(usize, bool)> } // (name, is null)
+
+const TS_LOC_NAMES: [&str; 11] = ["SCHEMA", "SCALAR", "OBJECT", "FIELD_DEFINITION", "ARGUMENT_DEFINITION", "INTERFACE", "UNION", "ENUM", "ENUM_VALUE", "INPUT_OBJECT", "INPUT_FIELD_DEFINITION"];
+const EX_LOC_NAMES: [&str; 3] = ["FIELD", "QUERY", "FRAGMENT_SPREAD"];
+
+fn dirapps_case(ctx: &mut Ctx, defs: &[DDef], loc: usize, apps: &[DApp]) {
+    let mut text = String::from("type Query { a: Int }\n");
+    let mut denc = vec![];
+    for (i, d) in defs.iter().enumerate() {
+        let args: Vec<String> = d.args.iter().map(|(n, req, dflt)| format!("a{n}: {}", if *req { "Int!" } else if *dflt { "Int! = 1" } else { "Int" })).collect();
+        let locs: Vec<&str> = d.locs.iter().map(|l| if *l < 11 { TS_LOC_NAMES[*l] } else { EX_LOC_NAMES[(*l - 100) % 3] }).collect();
+        text.push_str(&format!("directive @d{i}{}{} on {}\n", if args.is_empty() { String::new() } else { format!("({})", args.join(", ")) }, if d.repeatable { " repeatable" } else { "" }, locs.join(" | ")));
+        denc.push(format!("{}:{}:{}", if d.repeatable { "r" } else { "n" }, d.locs.iter().map(|l| l.to_string()).collect::<Vec<_>>().join(","), d.args.iter().map(|(n, r, _)| format!("{n}.{}", if *r { "r" } else { "o" })).collect::<Vec<_>>().join(",")));
+    }
+    let app_text: String = apps.iter().map(|a| {
+        let args: Vec<String> = a.args.iter().map(|(n, null)| format!("a{n}: {}", if *null { "null" } else { "1" })).collect();
+        format!(" @d{}{}", a.name, if args.is_empty() { String::new() } else { format!("({})", args.join(", ")) })
+    }).collect();
+    let a = &app_text;
+    text.push_str(&match loc {
+        0 => format!("schema{a} {{ query: Query }}\n"),
+        1 => format!("scalar S{a}\n"),
+        2 => format!("type O{a} {{ x: Int }}\n"),
+        3 => format!("type O {{ x: Int{a} }}\n"),
+        4 => format!("type O {{ x(p: Int{a}): Int }}\n"),
+        5 => format!("interface I{a} {{ x: Int }}\n"),
+        6 => format!("union U{a} = Query\n"),
+        7 => format!("enum E{a} {{ V }}\n"),
+        8 => format!("enum E {{ V{a} }}\n"),
+        9 => format!("input N{a} {{ x: Int }}\n"),
+        _ => format!("input N {{ x: Int{a} }}\n"),
+    });
+    const KINDS: [&str; 6] = ["UniqueArgument", "UndefinedDirective", "UniqueDirective", "UnsupportedLocation", "UndefinedArgument", "RequiredArgument"];
+    let out = match catch(|| match Schema::parse_and_validate(&text, "s.graphql") {
+        Ok(_) => vec![],
+        Err(e) => e.errors.iter().filter_map(|d| d.error.unstable_error_name()).filter(|n| KINDS.contains(n)).map(|n| n.to_string()).collect::<Vec<_>>(),
+    }) {
+        Err(p) => { ctx.fail("schema-validation-panic", &text, &p); "PANIC".to_string() }
+        Ok(mut v) => { v.sort(); if v.is_empty() { "ok".to_string() } else { v.join(",") } }
+    };
+    let aenc: Vec<String> = apps.iter().map(|a| format!("{}:{}", a.name, a.args.iter().map(|(n, null)| format!("{n}.{}", if *null { "n" } else { "v" })).collect::<Vec<_>>().join(","))).collect();
+    if out != "ok" { ctx.nontrivial(&format!("da|{}|{loc}|{}", denc.join("|"), aenc.join("|"))); }
+    ctx.stat(if out == "ok" { "dirapps_ok" } else { "dirapps_err" });
+    ctx.stat(&format!("dirapps_loc_{}", TS_LOC_NAMES[loc]));
+    ctx.case("c14.dirapps", &[enc(&denc.join("|")), format!("={loc}"), enc(&aenc.join("|"))], &out);
+    judge(ctx, &text, "stream-dirapps");
+}
+
+fn streams3(ctx: &mut Ctx) {
+    // one definition @d0(a0: Int!, a1: Int), every location, allowed or not, repeatable or not, applied once or
+    // twice, every small argument list over {a0, a0: null, a1, a1: null, a2 (undefined), a0 twice}
+    let arg_lists: Vec<Vec<(usize, bool)>> = vec![vec![], vec![(0, false)], vec![(0, true)], vec![(1, false)], vec![(0, false), (1, true)], vec![(1, false), (0, false)],
+        vec![(0, false), (2, false)], vec![(0, false), (0, false)], vec![(2, true)], vec![(0, false), (1, false), (1, false)]];
+    for loc in 0..11usize {
+        for allowed in [true, false] {
+            for repeatable in [true, false] {
+                let locs = if allowed { vec![loc, (loc + 3) % 11] } else { vec![(loc + 1) % 11, 100] };
+                let def = DDef { repeatable, locs, args: vec![(0, true, false), (1, false, false)] };
+                for (i, al) in arg_lists.iter().enumerate() {
+                    dirapps_case(ctx, &[def.clone()], loc, &[DApp { name: 0, args: al.clone() }]);
+                    if i < 4 || ctx.thorough {
+                        dirapps_case(ctx, &[def.clone()], loc, &[DApp { name: 0, args: al.clone() }, DApp { name: 0, args: vec![(0, false)] }]);
+                        dirapps_case(ctx, &[def.clone()], loc, &[DApp { name: 0, args: vec![(0, false)] }, DApp { name: 1, args: al.clone() }, DApp { name: 0, args: al.clone() }]);
+                    }
+                }
+            }
+        }
+    }
+    let n_rand = if ctx.thorough { 30_000 } else { 2_500 };
+    for _ in 0..n_rand {
+        let nd = 1 + ctx.rng.below(3);
+        let loc = ctx.rng.below(11);
+        let defs: Vec<DDef> = (0..nd).map(|_| {
+            let mut locs: Vec<usize> = vec![];
+            if ctx.rng.chance(3, 4) { locs.push(loc); }
+            for _ in 0..ctx.rng.below(3) { let l = if ctx.rng.chance(1, 5) { 100 + ctx.rng.below(3) } else { ctx.rng.below(11) }; if !locs.contains(&l) { locs.push(l); } }
+            if locs.is_empty() { locs.push((loc + 1 + ctx.rng.below(10)) % 11); }
+            let na = ctx.rng.below(4);
+            DDef { repeatable: ctx.rng.chance(1, 2), locs, args: (0..na).map(|k| (k, ctx.rng.chance(1, 2), ctx.rng.chance(1, 3))).collect() }
+        }).collect();
+        let napp = 1 + ctx.rng.below(3);
+        let apps: Vec<DApp> = (0..napp).map(|_| {
+            let name = if ctx.rng.chance(1, 8) { nd } else { ctx.rng.below(nd) };
+            let mut args: Vec<(usize, bool)> = vec![];
+            if name < nd {
+                for (k, req, _) in &defs[name].args { if ctx.rng.chance(if *req { 5 } else { 3 }, 6) { args.push((*k, ctx.rng.chance(1, 6))); } }
+            }
+            if ctx.rng.chance(1, 8) { args.push((7, false)); }
+            if ctx.rng.chance(1, 8) && !args.is_empty() { let d = args[ctx.rng.below(args.len())]; args.push(d); }
+            if ctx.rng.chance(1, 4) { args.reverse(); }
+            DApp { name, args }
+        }).collect();
+        dirapps_case(ctx, &defs, loc, &apps);
     }
 }
 
